@@ -803,7 +803,7 @@ def nice_model(ctx, extra, inputs, prefer=()):
             return m
     s = ctx.solver
     reals = [c for c in collect_reals(inputs).values() if z3.is_real(c)]
-    for den, bound in ((1, 64), (8, 64), (64, 1024)):
+    for den, bound in ((1, 64), (8, 64), (64, 1024), (8, 2 ** 25)):
         s.push()
         try:
             for e in extra:
